@@ -393,7 +393,15 @@ func c16JudgePair(c *Check, rule string, pk *packages.Package, key string, pos t
 		}
 		seen[r] = true
 		n++
-		if ok, msg := c16Judge(cv, evv); !ok && bad == "" {
+		ok, msg := c16Judge(cv, evv)
+		if !ok && cv.K == absSym && strings.HasPrefix(cv.Sym, "param:") {
+			// the basic code is a parameter of an unexported helper (`c.noSMTPUTF8Err(550, …)`): judged with the
+			// constants its callers pass
+			if ok2, msg2, decided := c16JudgeAtCallers(c, pk, body, strings.TrimPrefix(cv.Sym, "param:"), evv); decided {
+				ok, msg = ok2, msg2
+			}
+		}
+		if !ok && bad == "" {
 			bad = msg
 		}
 	})
@@ -1198,4 +1206,54 @@ func containsErrorOperand(v ssa.Value, seen map[ssa.Value]bool, depth int) bool 
 		return containsErrorOperand(x.X, seen, depth+1)
 	}
 	return false
+}
+
+
+// c16JudgeAtCallers: body belongs to an unexported function of pk whose parameter prm supplies the basic code; every
+// call site in the package must pass a constant that is coherent with the enhanced class ench.
+func c16JudgeAtCallers(c *Check, pk *packages.Package, body *ast.BlockStmt, prm string, ench absVal) (ok bool, msg string, decided bool) {
+	var fi *FuncInfo
+	c.P.AllFuncs([]*packagesPkg{pk}, func(f *FuncInfo) {
+		if f.Decl.Body == body {
+			fi = f
+		}
+	})
+	if fi == nil || fi.Obj.Exported() || fi.Decl.Type.Params == nil {
+		return false, "", false
+	}
+	pidx, pi := -1, 0
+	for _, f := range fi.Decl.Type.Params.List {
+		for _, nm := range f.Names {
+			if nm.Name == prm {
+				pidx = pi
+			}
+			pi++
+		}
+	}
+	if pidx < 0 {
+		return false, "", false
+	}
+	sites := 0
+	ok = true
+	c.P.AllFuncs([]*packagesPkg{pk}, func(caller *FuncInfo) {
+		inf := caller.Info()
+		for _, call := range callsIn(caller.Decl.Body) {
+			if callee(inf, call) != fi.Obj || pidx >= len(call.Args) {
+				continue
+			}
+			sites++
+			cv := c16Evaluator(c.P, inf)(call.Args[pidx], nil)
+			if cv.K != absConst {
+				ok, msg = false, "the basic code handed to "+fi.Obj.Name()+" at line "+itoa(c.P.Fset.Position(call.Pos()).Line)+" is not a constant"
+				continue
+			}
+			if o, m := c16Judge(cv, ench); !o {
+				ok, msg = false, m+" (code passed to "+fi.Obj.Name()+" at line "+itoa(c.P.Fset.Position(call.Pos()).Line)+")"
+			}
+		}
+	})
+	if sites == 0 {
+		return false, "", false
+	}
+	return ok, msg, true
 }
